@@ -670,7 +670,8 @@ fn actor_history(hist: &[AOp]) -> Vec<(&'static str, Value, String)> {
         let ts = T0 + 10 + i as u64;
         match op {
             AOp::SyncIn => {
-                let e = SignedEntry::from_parts(&ns_secret(0), &author(1), format!("r{i}").as_bytes(), iroh_docs::sync::Record::new(Val::Y.hash_len().0, 1, T0 + 500 + i as u64));
+                // (same author as the local writes: the consistency checks of `recover` know one author)
+                let e = SignedEntry::from_parts(&ns_secret(0), &author(0), format!("r{i}").as_bytes(), iroh_docs::sync::Record::new(Val::Y.hash_len().0, 1, T0 + 500 + i as u64));
                 let mut peer = Sut::memory_with(&[0]);
                 let _ = peer.remote(ns, e.clone());
                 let mut st_p = iroh_docs::SyncOutcome::default();
